@@ -316,7 +316,7 @@ func freshKeyClass(cls string, seed uint64) *kp {
 		case 2048:
 			return poolKey(cls, int(seed%uint64(nRSA())))
 		case 2049:
-			return poolKey(cls, int(seed%2))
+			return poolKey(cls, 0) // one per process (generation of an RSA key: 0.05-0.5 s)
 		default:
 			return fixtureRSA(bits)
 		}
@@ -351,8 +351,8 @@ func freshKey(typ string, seed uint64) *kp { return freshKeyClass(defaultClass[t
 type keyMix struct{ other, big int }
 
 var (
-	mixAny      = keyMix{other: 4, big: 0} // drawKey: any curve, RSA 2048 / 2049
-	mixSigner   = keyMix{other: 4, big: 2} // drawSigner: plus RSA 8191 / 8192
+	mixAny      = keyMix{other: 2, big: 0} // drawKey: any curve, RSA 2048 / 2049
+	mixSigner   = keyMix{other: 2, big: 2} // drawSigner: plus RSA 8191 / 8192
 	mixEnvelope = keyMix{other: 1, big: 1} // signers of envelopes (each is verified some 20 times per case)
 )
 
@@ -489,7 +489,7 @@ func tryKP(cls, tag string, priv ic.PrivKey) (*kp, error) {
 
 func TestKeySizesAndCurves(t *testing.T) {
 	name := t.Name()
-	hx.Check(t, 140, 5000, 0, func(rt *rapid.T) {
+	hx.Check(t, 120, 5000, 0, func(rt *rapid.T) {
 		peer.AdvancedEnableInlining = true
 		cc := classCases[drawUniform(rt, "class", len(classCases))]
 		typ := classType(cc.cls)
@@ -512,6 +512,9 @@ func TestKeySizesAndCurves(t *testing.T) {
 		var err error
 		switch cc.via {
 		case "generate":
+			if cc.cls == "rsa/2049" {
+				seed = 0
+			}
 			k = poolKey(cc.cls, int(seed%2))
 		case "std":
 			var priv ic.PrivKey
@@ -587,17 +590,27 @@ func TestKeySizesAndCurves(t *testing.T) {
 		}
 
 		// 2. the key contract of the statement
-		sig, err := k.priv.Sign(msg)
-		if err != nil {
-			rt.Fatalf("%s: Sign: %v", k.tag, err)
+		var sig []byte
+		if slowSigner(k) {
+			// 0.1 s per signature: the signature made by the re-read private key (verified under
+			// the original public key) serves the checks below; the key object itself signs
+			// the envelope of step 3
+			var s string
+			if s, sig = privRoundTripSig(k, msg, true); s != "" {
+				rt.Fatalf("%s: %s", k.tag, s)
+			}
+		} else {
+			if sig, err = k.priv.Sign(msg); err != nil {
+				rt.Fatalf("%s: Sign: %v", k.tag, err)
+			}
+			if s := privRoundTrip(k, msg, false); s != "" {
+				rt.Fatalf("%s: %s", k.tag, s)
+			}
 		}
 		if ok, err := k.pub.Verify(msg, sig); !ok || err != nil {
 			rt.Fatalf("%s: a %d-byte signature does not verify under the signer's key for the signed message (ok=%v err=%v)", k.tag, len(sig), ok, err)
 		}
 		if s := pubRoundTrip(k, msg, sig); s != "" {
-			rt.Fatalf("%s: %s", k.tag, s)
-		}
-		if s := privRoundTrip(k, msg, slowSigner(k)); s != "" {
 			rt.Fatalf("%s: %s", k.tag, s)
 		}
 		if mm := drawMutation(rt, msg, "mm"); !bytes.Equal(mm.out, msg) {
